@@ -449,6 +449,8 @@ class FnView:
                     continue
                 for j, s in enumerate(b['stmts']):
                     l = s['lhs']['l']
+                    if s['lhs']['p'] and s['lhs']['p'][0] == '*':
+                        continue    # a store through a reference does not redefine the reference
                     d.setdefault(l, []).append(('stmt', i, j, s))
                 t = b['term']
                 if t['k'] == 'call':
@@ -492,6 +494,13 @@ class FnView:
                 return ('var', name, ())
             if l == 0:
                 return ('var', '<ret>', ())
+            # several definitions that all denote the same value (e.g. a captured reference
+            # reloaded after each suspension point of a coroutine)
+            ds = self.defs().get(l, [])
+            if 1 < len(ds) <= 8 and depth < 30 and all(k == 'stmt' and s['k'] == 'assign' and not s['lhs']['p'] and s['rv']['k'] in ('use', 'ref') for k, i, j, s in ds):
+                es = [self.rvalue_expr(s['rv'], i, depth + 1) for k, i, j, s in ds]
+                if all(e == es[0] for e in es) and es[0][0] in ('var',):
+                    return es[0]
             return ('phi', l)
         kind, i, j, s = sd
         if kind == 'call':
